@@ -5,42 +5,170 @@
    A adj A = adj A A = det A I, additive group, identity, module laws with the rows as vectors),
    all triples over {-1,0,1} (associativity, both distributivities; quick: C over {0,1}), all 3x3
    matrices over {-1,0,1} (Laplace / adjugate / cross product laws; quick: rows 2,3 over {0,1});
-   11 vacuity guards (defective definitions substituted in the cfg) must each be refuted by TLC.
-2. harness/c14_linalg.cpp drives the real operators: all pairs of 2x2 matrices over {-1,0,1,2},
-   seeded random 3x3 / 4x4 / rectangular matrices and vectors / dims of dimension 1-4 in [-9,9],
-   static and view (matrix row) storage, and records operands and results as nested arrays.
+   17 vacuity guards (defective definitions substituted in the cfg) must each be refuted by TLC.
+2. harness/c14_*.cpp drive the real operators: all pairs of 2x2 matrices over {-1,0,1,2}, seeded
+   random 3x3 / 4x4 / rectangular matrices and vectors / dims of dimension 1-4 in [-9,9], static
+   storage, matrix row views and views of arrays (vectors, dims and matrices), every combination
+   of storage types per operation, and record operands and results as nested arrays.
 3. spec/LinAlgJudge.tla (TLC, RecordLoop) judges every record.
-UBSan (signed overflow) / ASan reports of the harness become rejected records (observed only)."""
+
+The harness is a set of UNITS, each its own translation unit and binary (built in parallel while the
+model checks run).  What the code under test does to a unit is a verdict, never an infrastructure
+failure: a unit that does not compile against the tree is a VIOLATION C14:<unit>:does-not-compile if
+it drives operations named by the statement and an OBSERVATION otherwise (the optional unit
+order_mixed does not compile on the unchanged tree - that is expected and silent); a crash, sanitizer
+report, exception or hang (watchdog: 60 s per call) inside a driven call is a VIOLATION /
+OBSERVATION naming the operation of the truncated record, and the complete prefix of the log is
+judged all the same."""
 import json
 import os
 import re
+import subprocess
+import threading
 import time
 
 import vlib
 
 LEVEL = "model_checking"
-PARTS = ["pairs", "matrices", "vectors", "extension"]
+# (unit, source, defines, in scope, optional)
+UNITS = [
+    ("pairs", "c14_pairs.cpp", (), True, False),
+    ("matrices_a", "c14_matrices.cpp", ("C14_HALF=0",), True, False),
+    ("matrices_b", "c14_matrices.cpp", ("C14_HALF=1",), True, False),
+    ("vectors_a", "c14_vectors.cpp", ("C14_HALF=0",), True, False),
+    ("vectors_b", "c14_vectors.cpp", ("C14_HALF=1",), True, False),
+    ("storage_vec_a", "c14_storage_vec.cpp", ("C14_HALF=0",), True, False),
+    ("storage_vec_b", "c14_storage_vec.cpp", ("C14_HALF=1",), True, False),
+    ("storage_mat_a", "c14_storage_mat.cpp", ("C14_HALF=0",), True, False),
+    ("storage_mat_b", "c14_storage_mat.cpp", ("C14_HALF=1",), True, False),
+    # operands with different value types (short / int / long): result type = type of the C++ expression
+    ("types", "c14_types.cpp", (), True, False),
+    # ordering operators with operands of different storage types: accepted by the signatures, rejected
+    # inside math/detail/array_less.hpp on the unchanged tree; driven (in scope) iff the tree accepts them
+    ("order_mixed", "c14_order_mixed.cpp", (), True, True),
+    # everything outside the statement (observed only)
+    ("extension", "c14_extension.cpp", (), False, False),
+]
+PARTS = [u[0] for u in UNITS]
+IN_SCOPE_UNIT = {u[0]: u[3] for u in UNITS}
 GUARDS = [("det", "CubeLaws"), ("transpose", "TransposeProduct"), ("involution", "TransposeInvolution"),
           ("adj", "AdjugateLaw"), ("mmul", "Associativity"), ("madd", "Distributivity"), ("madd2", "AdditiveGroup"),
           ("mvec", "ModuleLaws"), ("identity", "IdentityLaw"), ("detmul", "DetMultiplicative"), ("bits", "BitStringLaws"),
-          ("cmod", "DivModLaws"), ("norm", "NormLaws"), ("unit", "VectorOptLaws"), ("interval", "IntervalLaws")]
+          ("cmod", "DivModLaws"), ("norm", "NormLaws"), ("unit", "VectorOptLaws"), ("interval", "IntervalLaws"),
+          ("le", "OrderLaws"), ("setat", "AccessLaws")]
+
+# ASan + the UBSan checks that matter here (signed overflow, division by zero, bounds, shifts) at -O0: the
+# harness runs for seconds, its compilation dominates (the full -fsanitize=undefined at -O1 costs 3.5x as much)
+SAN = ["-fsanitize=address,signed-integer-overflow,integer-divide-by-zero,bounds,shift,return,unreachable,bool",
+       "-fno-sanitize-recover=all", "-fno-omit-frame-pointer"]
 
 
-def build():
-    return vlib.build_harness("c14_linalg", ["c14_linalg.cpp"], libs=())
+def genuine_compile_error(out):
+    """a diagnostic of the compiler about the code, as opposed to the compiler being killed / out of
+    memory / out of disk on the shared box (which is our infrastructure, never a verdict)"""
+    if re.search(r"Killed signal|internal compiler error|virtual memory exhausted|No space left|cannot allocate memory|std::bad_alloc", out):
+        return False
+    body = re.sub(r"^compile failed: [^\n]*\n?", "", out)
+    return re.search(r"error|note: |required from|In file included", body) is not None
+
+
+def compile_error_summary(out):
+    """first error of a failed compilation and the fcppt::math names around it"""
+    lines = out.splitlines()
+    first = next((i for i, l in enumerate(lines) if " error: " in l or "fatal error:" in l), None)
+    if first is None:
+        return re.sub(r"\s+", " ", out[-400:]), []
+    fns = []
+    for l in lines[max(0, first - 30):first + 3]:
+        for m in re.finditer(r"fcppt(?:::|/)math(?:::|/)((?:\w+(?:::|/))*\w+)", l):
+            n = m.group(1).replace("/", "::")
+            if n not in fns and not n.startswith("size_type"):
+                fns.append(n)
+    return re.sub(r"\s+", " ", lines[first])[:400], fns[:8]
+
+
+def build(ctx, only=None):
+    """Compile and link every unit on its own (in parallel).  Returns {unit: binary}; the units that do
+    not compile against the tree under test are reported (see the module docstring) and left out."""
+    t0 = time.time()
+    tag = vlib.sha((vlib.REPO + "c14-units-O0").encode())[:10]
+    objdir = vlib.mkdir(os.path.join(vlib.BUILD, "obj", tag))
+    bindir = vlib.mkdir(os.path.join(vlib.BUILD, "bin", tag))
+
+    def one(u):
+        unit, src, defs, scope, optional = u
+        flags = vlib.base_flags("none", "-O0", defs) + SAN
+        obj = os.path.join(objdir, "h_c14_%s.o" % unit)
+        for attempt in (1, 2):
+            try:
+                o, rebuilt = vlib.compile_obj(os.path.join(vlib.HARNESS, src), obj, flags)
+                break
+            except vlib.Infra as e:
+                if genuine_compile_error(str(e)):
+                    return unit, None, str(e)
+                if attempt == 2:
+                    raise
+                time.sleep(5)   # compiler killed on the shared box: once more
+        out = os.path.join(bindir, "c14_" + unit)
+        if rebuilt or not os.path.exists(out):
+            tout = out + ".tmp%d" % os.getpid()
+            p = subprocess.run(["g++", "-pthread"] + SAN + [o, "-o", tout], stdout=subprocess.PIPE, stderr=subprocess.STDOUT,
+                               text=True, errors="replace")
+            if p.returncode != 0:
+                raise vlib.Infra("link failed: c14_%s\n%s" % (unit, p.stdout[-4000:]))
+            os.replace(tout, out)
+        return unit, out, None
+    units = [u for u in UNITS if only is None or u[0] in only]
+    res = vlib.parallel(one, units, workers=vlib.NCPU)
+    bins = {}
+    failed = []
+    for (unit, src, defs, scope, optional), (_, binary, err) in zip(units, res):
+        if binary is not None:
+            bins[unit] = binary
+            continue
+        first, fns = compile_error_summary(err)
+        failed.append(unit)
+        if optional:
+            vlib.log("INFO: optional unit %s does not compile against this tree (expected on the unchanged tree): %s" % (unit, first[:200]))
+            continue
+        msg = "harness unit %s (harness/%s%s) does not compile against this tree: %s%s" % (
+            unit, src, " -D" + ",".join(defs) if defs else "", first,
+            "; fcppt::math names in the error context: " + ", ".join(fns) if fns else "")
+        ctx.extra.setdefault("units_not_compiling", []).append({"unit": unit, "first_error": first})
+        if scope:
+            ctx.reject("C14:%s:does-not-compile" % unit, msg, {"part": unit, "build": True})
+        else:
+            observe(ctx, "C14:observed:%s:does-not-compile" % unit, msg)
+    if only is None:
+        ctx.extra["order_mixed_compiles"] = "order_mixed" in bins
+    vlib.log("build c14: %d units (%d do not compile: %s) in %.1fs" % (len(units), len(failed), ",".join(failed) or "-", time.time() - t0))
+    return bins
+
+
+def retry_killed(fn, *a, **kw):
+    """TLC processes are occasionally killed by the kernel's OOM killer when many checks share the box
+    (rc=-9): that says nothing about the model or the code, so the run is repeated (at most three times)."""
+    for attempt in range(3):
+        try:
+            return fn(*a, **kw)
+        except vlib.Infra as e:
+            if "rc=-9" not in str(e) or attempt == 2:
+                raise
+            vlib.log("TLC was killed (rc=-9); retrying after a pause")
+            time.sleep(20 * (attempt + 1))
 
 
 def model_checks(ctx):
     thorough = ctx.tier == "thorough"
-    vlib.tlc_mc(ctx, "MC_LinAlg", "MC_LinAlg_pairs.cfg", timeout=1800)
-    # extension laws (norm, div/mod, optional vectors, unit, intervals): pairs over {-1,0,1} in quick
-    vlib.tlc_mc(ctx, "MC_LinAlg", "MC_LinAlg_pairs_ext.cfg" if thorough else "MC_LinAlg_pairs_ext_quick.cfg", timeout=1800)
-    vlib.tlc_mc(ctx, "MC_LinAlg", "MC_LinAlg_triples.cfg" if thorough else "MC_LinAlg_triples_quick.cfg", timeout=2400)
-    vlib.tlc_mc(ctx, "MC_LinAlg", "MC_LinAlg_cubes.cfg" if thorough else "MC_LinAlg_cubes_quick.cfg", timeout=1800)
+    retry_killed(vlib.tlc_mc, ctx, "MC_LinAlg", "MC_LinAlg_pairs.cfg", timeout=1800)
+    # extension laws (norm, div/mod, optional vectors, unit, intervals; round 3: access and order laws): pairs over {-1,0,1} in quick
+    retry_killed(vlib.tlc_mc, ctx, "MC_LinAlg", "MC_LinAlg_pairs_ext.cfg" if thorough else "MC_LinAlg_pairs_ext_quick.cfg", timeout=1800)
+    retry_killed(vlib.tlc_mc, ctx, "MC_LinAlg", "MC_LinAlg_triples.cfg" if thorough else "MC_LinAlg_triples_quick.cfg", timeout=2400)
+    retry_killed(vlib.tlc_mc, ctx, "MC_LinAlg", "MC_LinAlg_cubes.cfg" if thorough else "MC_LinAlg_cubes_quick.cfg", timeout=1800)
 
     def guard(g):
         name, inv = g
-        return name, inv, vlib.tlc("MC_LinAlg", "MC_LinAlg_bug_%s.cfg" % name, workers=2, tag="MC_LinAlg_bug_" + name)
+        return name, inv, retry_killed(vlib.tlc, "MC_LinAlg", "MC_LinAlg_bug_%s.cfg" % name, workers=2, tag="MC_LinAlg_bug_" + name)
     t0 = time.time()
     res = vlib.parallel(guard, GUARDS, workers=6)
     vlib.log("vacuity guards: %d TLC runs in %.1fs" % (len(GUARDS), time.time() - t0))
@@ -109,6 +237,9 @@ def class_of(e):
 
 
 OBSERVED = ("r", "origin", "radius")
+# kinds for which the judge accepts two values (the documentation is silent, the code's value and the
+# text-book value differ; outside the statement): a corrupted result may be the other accepted value
+GUARD_EXEMPT = {"adjugate_1x1", "inverse_1x1"}
 
 
 def corrupted(x):
@@ -142,28 +273,55 @@ def judge_guard(ctx, module, cfg, chosen):
     os.unlink(path)
 
 
+def has_result(e):
+    return isinstance(e, dict) and "f" in e and any(k in e for k in OBSERVED)
+
+
 def judge_parts(ctx, results):
     all_lines = []
     spans = []
+    scope_kinds = in_scope_kinds()
     for part, path, rc, out in results:
-        lines, tail = vlib.check_trace_file(path)
+        try:
+            lines, tail = vlib.check_trace_file(path)
+        except OSError:
+            lines, tail = [], None   # the process died before it opened its log
+        recs = []
+        for l in lines:
+            if l.startswith('{"e":"crash"'):
+                continue
+            try:
+                e = json.loads(l)
+            except ValueError:
+                e = None
+            if has_result(e):
+                recs.append(l)
+            elif tail is None:
+                tail = l       # a call record without its result: the aborted call (may by accident be valid JSON)
         if rc != 0:
-            fn = "?"
+            fn = None
             if tail:
                 mm = re.search(r'"f":"(\w+)"', tail)
-                fn = mm.group(1) if mm else "?"
+                fn = mm.group(1) if mm else None
             kind = {66: "sanitizer", 67: "crash", 68: "hang", 124: "timeout"}.get(rc, "exit%d" % rc)
             san = re.search(r"(ERROR: \w+Sanitizer: [^\n]*|runtime error: [^\n]*)", out)
-            (ctx.reject if fn in in_scope_kinds() or fn == "?" else
-             (lambda sig, what, payload: observe(ctx, sig.replace("C14:", "C14:observed:", 1), what)))("C14:%s:%s" % (fn, kind),
-                       "%s during %s (part %s): %s; truncated record: %s" % (
-                           kind, fn, part, san.group(1) if san else out[-300:], (tail or "")[:300]),
-                       {"part": part, "partial_line": tail})
-        elif not lines:
-            raise vlib.Infra("harness part %s wrote no records" % part)
-        lines = [l for l in lines if not l.startswith('{"e":"crash"')]
+            crash = re.search(r'\{"e":"crash","what":"(\w+)","code":(-?\d+)\}', open(path, errors="replace").read()[-400:]) if os.path.exists(path) else None
+            detail = san.group(1) if san else ("%s (code %s)" % (crash.group(1), crash.group(2)) if crash else out[-300:])
+            if fn is not None:
+                sig, scope = "C14:%s:%s" % (fn, kind), fn in scope_kinds
+                what = "%s during %s (unit %s): %s; truncated record: %s" % (kind, fn, part, detail, tail[:300])
+            else:   # outside a driven call (between two calls, at process exit): named after the unit
+                sig, scope = "C14:unit_%s:%s" % (part, kind), IN_SCOPE_UNIT.get(part, True)
+                what = "%s in harness unit %s outside a driven call (after %d records): %s; last record: %s" % (
+                    kind, part, len(recs), detail, (recs[-1] if recs else "")[:300])
+            if scope:
+                ctx.reject(sig, what, {"part": part, "partial_line": tail})
+            else:
+                observe(ctx, sig.replace("C14:", "C14:observed:", 1), what)
+        elif not recs:
+            raise vlib.Infra("harness unit %s wrote no records" % part)
         spans.append((len(all_lines), part))
-        all_lines += lines
+        all_lines += recs
         ctx.traces_validated += 1
         try:
             os.unlink(path)
@@ -175,8 +333,8 @@ def judge_parts(ctx, results):
     with open(path, "w") as f:
         f.write("\n".join(all_lines) + "\n")
     t0 = time.time()
-    bad = vlib.judge_trace(ctx, "LinAlgJudge", "LinAlgJudge.cfg", path, boundary_key=None,
-                           nchunks=max(1, len(all_lines) // 30000 + 1), timeout=2400)
+    bad = retry_killed(vlib.judge_trace, ctx, "LinAlgJudge", "LinAlgJudge.cfg", path, boundary_key=None,
+                       nchunks=max(1, len(all_lines) // 45000 + 1), timeout=2400)
     vlib.log("judged %d records in %.1fs, %d rejected" % (len(all_lines), time.time() - t0, len(bad)))
     ctx.evaluations += len(all_lines)
 
@@ -200,16 +358,21 @@ def judge_parts(ctx, results):
                    {"part": part_of(b["l"]), "record": json.loads(line)})
     chosen = {}
     bad_lines = set(b["l"] for b in bad)
+    per_kind = {}
     for ln, l in enumerate(all_lines, 1):
         e = json.loads(l)
         ctx.count_class(class_of(e))
+        per_kind[e["f"]] = per_kind.get(e["f"], 0) + 1
         if ln in bad_lines:
             continue  # the guard corrupts records the judge accepted
         for fld in OBSERVED:
-            if fld in e and (e["f"], fld) not in chosen:
+            if fld in e and (e["f"], fld) not in chosen and e["f"] not in GUARD_EXEMPT:
                 c = corrupted(e[fld])
                 if c is not None:
                     chosen[(e["f"], fld)] = dict(e, **{fld: c})
+    ctx.extra["records_per_kind"] = dict(sorted(per_kind.items()))
+    ctx.extra["records_per_unit"] = {part: (spans[i + 1][0] if i + 1 < len(spans) else len(all_lines)) - first
+                                     for i, (first, part) in enumerate(spans)}
     if not bad:  # only on a run without any disagreement (rejected records are listed up to a cap)
         judge_guard(ctx, "LinAlgJudge", "LinAlgJudge.cfg", chosen)
     for first, part in spans:
@@ -220,39 +383,63 @@ def judge_parts(ctx, results):
         os.unlink(path)
 
 
-def record_and_judge(ctx, binary, parts):
+def record_and_judge(ctx, bins, parts):
     def rec(part):
         path = os.path.join(ctx.workdir, "rec_%s_%s.ndjson" % (part, "replay" if ctx.is_replay else ctx.tier))
-        rc, out = vlib.run_harness(binary, ["record", path, ctx.seed, ctx.tier, part], timeout=1500)
+        try:
+            os.unlink(path)
+        except OSError:
+            pass
+        rc, out = vlib.run_harness(bins[part], ["record", path, ctx.seed, ctx.tier], timeout=900 if ctx.tier == "quick" else 2700)
         return part, path, rc, out
     t0 = time.time()
-    results = vlib.parallel(rec, parts, workers=4)
-    vlib.log("harness: %d parts recorded in %.1fs" % (len(parts), time.time() - t0))
+    parts = [p for p in parts if p in bins]
+    results = vlib.parallel(rec, parts, workers=6)
+    vlib.log("harness: %d units recorded in %.1fs" % (len(parts), time.time() - t0))
     judge_parts(ctx, results)
 
 
 def run(ctx):
-    model_checks(ctx)
-    binary = build()
-    record_and_judge(ctx, binary, PARTS)
+    # the units are compiled while TLC checks the model (they do not depend on each other)
+    box = {}
+
+    def bg():
+        try:
+            box["bins"] = build(ctx)
+        except BaseException as e:   # re-raised in the main thread
+            box["err"] = e
+    th = threading.Thread(target=bg)
+    th.start()
+    try:
+        model_checks(ctx)
+    finally:
+        th.join()
+    if "err" in box:
+        raise box["err"]
+    record_and_judge(ctx, box["bins"], PARTS)
     ctx.exhaustive = False
     ctx.rule = ("one record per call of a real fcppt::math operator/function: every ordered pair of 2x2 int matrices over "
                 "{-1,0,1,2} (+, -, product; ==/!= on a eighth of them and all equal pairs), every 2x2 matrix with every vector over "
                 "{-1,0,1,2}^2 and scalars -2..3, seeded random 3x3 / 4x4 / rectangular matrices and vectors / dims of dimension "
-                "1-4 with entries in [-9,9] (600/400 rounds quick, 6000/4000 thorough), static and view storage; the 2x2 pair "
-                "space is exhaustive, the rest is random, hence exhaustive=false; a class = (function, vector|dim|matrix group, "
-                "storage kinds, operand shapes, static indices, result category zero/neg/pos or true/false)")
+                "1-4 with entries in [-9,9] (600/400 rounds quick, 6000/4000 thorough; every combination of storage types: "
+                "24-30 rounds quick, 300 thorough), static storage, matrix row views (const and non-const), views of arrays "
+                "(vectors, dims, matrices) and rows of view matrices; the 2x2 pair space is exhaustive, the rest is random, hence "
+                "exhaustive=false; a class = (function, vector|dim|matrix group, storage kinds, operand shapes, static indices, "
+                "result category zero/neg/pos or true/false)")
     ctx.assumptions += [
         "integer scalars only (int, results cast to long in structure_cast); floating point is outside the statement",
-        "every intermediate value stays below 2^31 by construction of the operand ranges; signed overflow would be reported by UBSan as a rejected record",
-        "view storage means rows of a matrix (fcppt::math::matrix::detail::row_view); ordering comparisons are driven with operands of one storage type (mixed types do not compile)",
-        "operator/ (optional results, division by zero) is not part of the statement and is not driven",
+        "every intermediate value stays below 2^31 by construction of the operand ranges; signed overflow would be reported by UBSan as a rejected record; recorded values are clamped to [-2^30, 2^30]",
+        "view storage means rows of a matrix (fcppt::math::matrix::detail::row_view, over static and over view matrices) and a user-defined view of an array of cells (the shape of fcppt's own test/math/vector/view_storage.cpp)",
+        "ordering comparisons are driven with operands of one storage type; with two storage types they do not compile on the unchanged tree (unit order_mixed: driven iff the tree accepts them)",
+        "assignment / construction between different storage types is read as part of 'static and view storage types ... agree with the same operations on plain arrays'",
+        "operator/, mod, inverse and the other functions of the unit 'extension' are not part of the statement: observed only",
     ]
 
 
 def replay(ctx, payload):
     ctx.tier = payload.get("tier", ctx.tier)
     ctx.seed = payload.get("seed", ctx.seed)
-    binary = build()
-    record_and_judge(ctx, binary, [payload["payload"]["part"]])
-    ctx.rule = "replay of the harness part that produced the saved rejection"
+    part = payload["payload"]["part"]
+    bins = build(ctx, only=[part])
+    record_and_judge(ctx, bins, [part])
+    ctx.rule = "replay of the harness unit that produced the saved rejection"
